@@ -75,6 +75,7 @@ def run(ck, fb):
     r07j(ck, fb)
     r07k(ck, fb)
     r07m(ck, fb)
+    r07n(ck, fb)
     ck.borrow('rules.c09', {'R09c': 'R07i', 'R09p': 'R07l'}, 'the replicated publish is a no-op only when the node already holds that content as APPLIED content: a follower that holds it as temporary value must record it like the leader does')
     ck.borrow('rules.c01', {'R01n': 'R07h'}, 'the start-up replay path must decide a request as the live apply path did: an index that only load_completed builds is empty during the replay')
 
@@ -399,3 +400,38 @@ def r07m(ck, fb, R='R07m'):
     rnd = [o for o in ck.obligations if o[0] == R and str(o[1]).startswith('random-in-apply')]
     if not rnd:
         ck.ok(R, 'apply-handlers-draw-no-random-values', '', '%d bodies, no random source' % n)
+
+
+def r07n(ck, fb, R='R07n'):
+    ck.rule(R, 'the three paths hand the entries to the state actors in the same ORDER relative to what the actors tell each other: handling an entry, '
+               'an actor may pass something on to another state actor (the ConfigActor tells the NamespaceActor about a tenant, the TableManager '
+               'forwards an old cache record to the DirectCacheManager). The leader and the replay await every entry, so such a message is in the '
+               'other mailbox before the next entry is handed over. A follower batch must do the same - apply entry by entry, each awaited - or no '
+               'apply handler may send to another state actor. With the whole batch do_send-ed first, entry i+1 overtakes the message entry i caused: '
+               'batch [ConfigSet tenant_a/.., Namespace Set tenant_b, Namespace Update tenant_a] -> leader [(tenant_a, "Tenant A"), (tenant_b)], '
+               'follower [(tenant_b), (tenant_a, "tenant_a")]: the committed Update is lost there')
+    b = fb.main(RD + 'apply_log_to_state_machine')
+    pairs = sorted(set((s.gargs[0], msg) for (s, msg, v, a) in util.sends(b) if not s.gargs[0].endswith('RaftIndexManager')))
+    actors = set(a for (a, m) in pairs)
+    side = []
+    for (actor, msg) in pairs:
+        for h in fb.impls(r'^actix::Handler$', re.escape(actor) + '$', re.escape(msg) + '$', 'handle'):
+            for x in _crate_closure(fb, h, 5):
+                for (s0, m0, v0, a0) in util.sends(x):
+                    tgt = s0.gargs[0] if s0.gargs else ''
+                    if tgt in actors and tgt != actor:
+                        side.append((actor.split('::')[-1], tgt.split('::')[-1], (m0 or '').split('::')[-1], v0, s0))
+    ck.info(R, 'messages between state actors sent while an entry is applied: %s' % sorted(set('%s -> %s %s::%s' % x[:4] for x in side)))
+    hname = '<rnacos::raft::filestore::raftapply::StateApplyManager as actix::Handler<rnacos::raft::filestore::raftapply::StateApplyRequest>>::handle'
+    h = ck.body(hname, R)
+    if not h:
+        return
+    reg = util.region(fb, h, 3)
+    fan = [x for x in reg if x.calls(re.escape(RD + 'do_send_log') + '$')]
+    awaited = [x for x in reg for s0 in x.calls(re.escape(RD + 'apply_log_to_state_machine') + '$') if util.awaited(x, s0)]
+    ok = (not side) or (not fan and bool(awaited))
+    ck.require(ok, R, 'ApplyBatchRequest:entries-awaited-one-by-one', h.where(),
+               'a replicated batch is handed to the state actors with do_send for all entries at once, while handlers of these entries send %d kinds of '
+               'messages to other state actors (%s): on a follower a later entry of the batch overtakes the message an earlier entry caused - the '
+               'leader and the replay, which await every entry, end in another state' % (len(set(x[:4] for x in side)), sorted(set('%s->%s' % x[:2] for x in side))),
+               'entries awaited one by one' if not side == [] else 'no messages between state actors')
